@@ -233,6 +233,11 @@ def run_case(spec, j):
                             if rel in ('translate', 'rotate') else Q)
   scale = max(np.abs(d1).max(), 1e-300)
   tol = 1e-3 * np.abs(d1) + 1e-5 * scale
+  if name.startswith('SDML'):
+    # scikit-learn's graphical lasso stops at a duality-gap tolerance: two
+    # runs on inputs that differ in the last bit may stop one sweep apart
+    # (1.9e-3 relative observed in 12 800 thorough cases, seed 1)
+    tol = 1e-2 * np.abs(d1) + 1e-4 * scale
   mon = 'C19.%s.%s' % (rel, name)
   dev = float(np.max(np.abs(d2 - d1) / tol)) if len(d1) else 0.0
   if dev > 1.0 and name in ('NCA', 'MLKR', 'LMNN', 'SCML', 'SCML_Supervised'):
